@@ -228,4 +228,99 @@ theorem gcBody_spec {S : Nat → Bool} {k m wb tmp ub finalN : Nat} {srt : Bool}
       exact gcB1_spec (S := S) hm2 h64 hub hS ih inv ext hlenO' (odd := 0) hOsame hOnew (by omega)
         (by omega) (by omega) (by omega) hfull inv.cells inv.live1 inv.gap inv.live2
 
+
+theorem gcLoop_spec {S : Nat → Bool} {k m wb tmp ub finalN : Nat} {srt : Bool} (hm2 : 2 ≤ m)
+    (h64 : finalN < 2 ^ 64) (hub : ub = ubOnNumLevels finalN) (hS : S wb = true) :
+    ∀ fuel cl g h, GCInv k m wb tmp ub finalN h cl g →
+      SafeF S h (generalCompressLoop k m wb srt fuel cl g h) (GCQ k m wb tmp ub g h) := by
+  intro fuel
+  induction fuel with
+  | zero =>
+    intro cl g h _
+    unfold generalCompressLoop
+    exact SafeF.exc _
+  | succ f ih =>
+    intro cl g h inv
+    rw [gcLoop_eq]
+    have hN := inv.hN
+    have hcl := inv.hcl
+    have hlenI := inv.lenI
+    by_cases etop : cl = g.curNumLevels - 1
+    · rw [if_pos etop]
+      apply step_lv (by omega)
+      apply step_setLv _ (by omega)
+      apply gcBody_spec (S := S) hm2 h64 hub hS ih inv
+      refine ⟨by simp, fun l hl => getD_set_ne _ _ _ _ (by omega), fun _ => ?_⟩
+      have e1 : g.curNumLevels + 1 = cl + 2 := by omega
+      have e2 : cl + 1 = g.curNumLevels := by omega
+      rw [e1, getD_set_eq _ _ _ (by omega), e2]
+      exact inv.inTop
+    · rw [if_neg etop]
+      exact gcBody_spec (S := S) hm2 h64 hub hS ih inv ⟨rfl, fun _ _ => rfl, fun e => absurd e etop⟩
+
+/-- `general_compress` on the populated work arrays -/
+theorem generalCompress_spec {S : Nat → Bool} {k m wb tmp ub finalN prov : Nat} {srt : Bool} {coins : List Bool}
+    (hm2 : 2 ≤ m) (h64 : finalN < 2 ^ 64) (hub : ub = ubOnNumLevels finalN) (hS : S wb = true) {h : Heap}
+    {WL : List Nat} (hlen : WL.length = ub + 2) (hp1 : 1 ≤ prov) (hpu : prov ≤ ub) (hw0 : WL.getD 0 0 = 0)
+    (hmono : ∀ l, l < prov → WL.getD l 0 ≤ WL.getD (l + 1) 0) (htop : WL.getD prov 0 = tmp)
+    (hwt : wsum (pop WL) prov = finalN) (hc : HasCells h wb tmp) (hl : LiveOn h wb 0 tmp) :
+    SafeF S h (generalCompress k m prov wb WL (List.replicate (ub + 2) 0) srt coins h)
+      (fun r h' => r.2.1.length = ub + 2 ∧ prov ≤ r.1.finalNumLevels ∧ r.1.finalNumLevels ≤ ub ∧
+        r.2.1.getD 0 0 = 0 ∧ (∀ l, l < r.1.finalNumLevels → r.2.1.getD l 0 ≤ r.2.1.getD (l + 1) 0) ∧
+        r.2.1.getD r.1.finalNumLevels 0 = r.1.finalNumItems ∧ r.1.finalNumItems ≤ r.1.finalCapacity ∧
+        r.1.finalCapacity = computeTotalCapacity k m r.1.finalNumLevels ∧ r.1.finalNumItems ≤ tmp ∧
+        SameBut h h' (fun b' _ => b' = wb) ∧ HasCells h' wb tmp ∧ LiveOn h' wb 0 r.1.finalNumItems ∧
+        (∀ j, r.1.finalNumItems ≤ j → j < tmp → stAt h' wb j = .raw)) := by
+  unfold generalCompress
+  rw [if_neg (by omega)]
+  apply step_lv (by omega)
+  apply step_lv (by omega)
+  apply step_setLv _ (by simp)
+  rw [htop, hw0]
+  generalize hOL0 : (List.replicate (ub + 2) 0).set 0 0 = OL0
+  have hlenO : OL0.length = ub + 2 := by rw [← hOL0]; simp
+  have hO0 : OL0.getD 0 0 = 0 := by rw [← hOL0, getD_set_eq _ _ _ (by simp)]
+  have inv0 : GCInv k m wb tmp ub finalN h 0
+      (⟨WL, OL0, prov, tmp - 0, computeTotalCapacity k m prov, coins⟩ : GcState) := by
+    refine ⟨hlen, hlenO, hpu, by simp only; omega, hO0, fun l hl' => by omega, fun l _ h2 => hmono l h2, htop, ?_, hc,
+      fun j h1 h2 => ?_, fun j h1 h2 => ?_, ?_, rfl, Or.inr ?_, ?_⟩
+    · simp only; rw [hO0]; omega
+    · simp only at h2; rw [hO0] at h2; omega
+    · simp only at h1 h2; rw [hO0] at h1; rw [hw0] at h2; omega
+    · simp only; rw [hw0]; exact hl
+    · simp only; rw [hO0]; simp
+    · simp only
+      rw [← hwt]
+      apply wsum_congr
+      intro l _
+      simp [mixPop]
+  apply SafeF.bind' (gcLoop_spec (S := S) (srt := srt) hm2 h64 hub hS (WL.length + 1) 0 _ h inv0)
+  intro g1 h1 ⟨post, hNle, sb1⟩ _
+  simp only at hNle
+  apply step_lv (by have := post.lenO; have := post.hN; omega)
+  apply step_lv (by have := post.lenO; omega)
+  rw [post.out0]
+  by_cases hchk : g1.outLevels.getD g1.curNumLevels 0 - 0 ≠ g1.curItemCount
+  · rw [if_pos hchk]; exact SafeF.exc _
+  rw [if_neg hchk]
+  have ecnt : g1.curItemCount = g1.outLevels.getD g1.curNumLevels 0 := by omega
+  have hle := post.le
+  apply vstep_destroyRange post.cells (by omega : g1.curItemCount + (tmp - 0 - g1.curItemCount) ≤ tmp)
+    (fun j h1' h2' => post.nonraw j (by omega) (by omega)) hS
+  intro h2 sb2 hr2
+  apply SafeF.pure
+  refine ⟨post.lenO, hNle, post.hN, post.out0, post.mono, ecnt.symm, ?_, post.tgt, by simp only; omega,
+    sb1.trans (sb2.mono (fun _ _ x => x.1)) (fun _ _ x => x) (fun _ _ x => x), sb2.cells _ _ post.cells, ?_, ?_⟩
+  · simp only
+    rcases post.cap with c | c
+    · omega
+    · omega
+  · intro j h1' h2'
+    simp only at h2'
+    rw [sb2.st _ _ (fun x => by omega)]
+    exact post.live j h1' (by omega)
+  · intro j h1' h2'
+    simp only at h1'
+    exact hr2 j h1' (by omega)
+
 end DS.Life.Kll
